@@ -385,6 +385,17 @@ class WithOptions(Evaluatable[B]):
             else mix(self.options, options)  # type: ignore
         )
 
+    def _determined(self, key: str, options: Options) -> bool:
+        """Whether the value under key is fixed by the pre-set options alone."""
+        if not dotted_key_exists(key, self.options):
+            return False
+        if not dotted_key_exists(key, options):
+            return True
+        # a pre-set section is merged with the section the caller provides
+        return self.force and not isinstance(
+            get_dotted_key(key, self.options), Mapping
+        )
+
     def evaluate(self, options: Options) -> B:
         """Evaluate the wrapped Evaluatable object with the provided options."""
         return self.evaluatable.evaluate(self._options(options))
@@ -398,10 +409,7 @@ class WithOptions(Evaluatable[B]):
         return {
             key
             for key in self.evaluatable.keys(self._options(options))
-            if not (
-                dotted_key_exists(key, self.options)
-                and (self.force or not dotted_key_exists(key, options))
-            )
+            if not self._determined(key, options)
         }
 
     def explain(self, options: Optional[Options] = None) -> Set[str]:
@@ -410,10 +418,7 @@ class WithOptions(Evaluatable[B]):
         return {
             key
             for key in self.evaluatable.explain(self._options(options))
-            if not (
-                dotted_key_exists(key, self.options)
-                and (self.force or not dotted_key_exists(key, options))
-            )
+            if not self._determined(key, options)
         }
 
     def __repr__(self) -> str:
